@@ -38,7 +38,7 @@ ASSUMPTIONS = [
     "an RP null entry carries no index on the wire (the library documents it cannot place it), so feed-only read-throughs end at the last real entry",
     "the push-down clause is judged when the view before the announcement was itself well-formed (clauses 1-2)",
 ]
-REQUIRED = {"histories": 50, "steps": 500, "readthroughs": 30, "announcements": 100, "get_faultlog.runs": 2}
+REQUIRED = {"histories": 50, "steps": 500, "readthroughs": 30, "announcements": 100, "get_faultlog.runs": 2, "sequence.episodes": 20, "sequence.clean_gets": 20, "sequence.failed_gets": 5, "sequence.announcements": 20}
 
 CTL, GWY = "01:145038", "18:006402"
 NULL = "000000B0000000000000000000007FFFFF7000000000"
@@ -86,6 +86,15 @@ class SimLog:
         self.entries.insert(0, e)
         del self.entries[64:]
         return e
+
+
+def pushdown_key(before: dict[int, str], after: dict[int, str], new_ts: str) -> str:
+    """Mechanism key for a failed push-down: the recorded finding is the gap-at-the-top case only."""
+    if new_ts not in after.values():
+        return "C19|announcement|no-effect"  # the announced entry is not in the view at all
+    if before and 0 not in before:
+        return "C19|announcement|known-entries-not-pushed-down"  # known entries did not start at index 0 (recorded)
+    return "C19|announcement|pushed-down-wrongly"
 
 
 def view_check(ctx, fl, sim: SimLog, sent: dict[str, Any], history: list[str], where: str) -> dict[int, Any] | None:
@@ -204,7 +213,7 @@ async def feed_history(loop: vloop.VirtualLoop, ctx, trial: int) -> None:
                         have = {i: v.timestamp for i, v in after.items()}
                         if have != want:
                             ctx.violate(
-                                "C19|announcement|known-entries-not-pushed-down",
+                                pushdown_key({i: before[i].timestamp for i in b_idx}, have, e["ts"]),
                                 "an unsolicited announcement of a new entry did not push the known entries down by one",
                                 {"history": history[-14:], "before": {i: before[i].timestamp for i in b_idx}, "after": have, "expected": want},
                             )
@@ -314,6 +323,152 @@ async def real_get_faultlog(loop: vloop.VirtualLoop, ctx, trial: int) -> None:
     air.close()
 
 
+async def real_sequence(loop: vloop.VirtualLoop, ctx, trial: int) -> None:
+    """Several real get_faultlog() calls on one port gateway, with what happens between them on a real system:
+    new faults whose announcement is heard or lost, a read-through that fails part-way (one index never
+    answered), an announcement arriving while a read-through is in flight.  Judged after each step:
+    well-formedness always; a read from the top with nothing changing meanwhile equals the controller's log
+    over the range read (whatever was believed before); a delivered announcement pushes the view down by one -
+    also after a failed read."""
+    import random
+
+    rng = random.Random(f"C19seq/{ctx.seed}/{trial}")
+    sim = SimLog(rng)
+    for _ in range(rng.choice((0, 2, 3, 5, 8, 20))):
+        sim.new()
+    air = airmod.Air(loop)
+    mute: set[int] = set()  # log indexes whose request goes unanswered
+    answered = [0]
+    on_answer: list[Any] = []
+    history: list[str] = []
+    ep = {"seed": ctx.seed, "trial": trial, "part": "sequence"}
+
+    def controller(frame: str) -> None:
+        p = frame.split(" ")
+        if frame[:2] == "RQ" and p[-3] == "0418" and p[-5] == CTL:
+            k = int(p[-1][4:6], 16)
+            if k in mute:
+                return
+            body = entry_payload(sim.entries[k], k) if k < len(sim.entries) else NULL
+            air.inject(f"RP --- {CTL} {p[-6]} --:------ 0418 022 {body}", delay=0.03)
+            answered[0] += 1
+            for fn in list(on_answer):
+                fn()
+
+    def stamps(view: dict[int, Any]) -> dict[int, str]:
+        return {i: view[i].timestamp for i in sorted(view)}
+
+    def well_formed(tcs, where: str) -> dict[int, str] | None:
+        try:
+            v = stamps(dict(tcs._faultlog.faultlog))
+            _ = tcs.latest_event, tcs.latest_fault, tcs.active_faults
+        except Exception as err:  # noqa: BLE001
+            ctx.violate(f"C19|view-raises|{type(err).__name__}|{innermost_lib_frame(err)}", "reading the fault-log view raised", {"history": history[-12:], "error": repr(err)[:160], "episode": ep})
+            return None
+        st = list(v.values())
+        known = {e["ts"] for e in sim.entries}
+        if any(a <= b for a, b in zip(st, st[1:])):
+            dup = len(set(st)) != len(st)
+            ctx.violate("C19|view|entry-at-two-positions" if dup else "C19|view|not-newest-first", "the fault-log view shows the same entry at two positions" if dup else "the fault-log view is not ordered newest-first", {"history": history[-12:], "view": v, "at": where, "episode": ep})
+        if any(x not in known for x in st):
+            ctx.violate("C19|view|invented-entry", "the fault-log view holds an entry the controller never reported", {"history": history[-12:], "view": v, "episode": ep})
+        return v
+
+    async def announce(tcs, e: dict[str, Any]) -> None:
+        air.inject(f" I --- {CTL} --:------ {CTL} 0418 022 {entry_payload(e, 0)}", faultable=False)
+        await asyncio.sleep(0.2)
+        await vloop.drain(loop)
+
+    air.add_listener(controller)
+    with clocks_patched():
+        gwy = await harness.start_port_gateway(loop, air, GWY, config={"disable_discovery": True})
+        air.inject(f" I --- {CTL} --:------ {CTL} 1F09 003 FF073F")
+        await asyncio.sleep(0.5)
+        tcs = gwy.tcs
+        if tcs is None:
+            ctx.inconclusive_because("no TCS on the port gateway")
+            await harness.stop_gateway(gwy)
+            return
+        kinds = []
+        for _ in range(rng.randint(4, 9)):
+            kind = rng.choices(("get", "get-fail", "new+announce", "new-lost", "announce-during-get"), (4, 2, 3, 2, 1))[0]
+            kinds.append(kind[:5])
+            ctx.count("sequence.steps")
+            if kind in ("get", "get-fail", "announce-during-get"):
+                limit = rng.choice((None, 3, 6, 10, 64))
+                n = 6 if limit is None else limit
+                span = min(n, len(sim.entries) + 1, 64)
+                mute.clear()
+                on_answer.clear()
+                changed = [False]
+                if kind == "get-fail" and span >= 1:
+                    mute.add(rng.randrange(span))
+                if kind == "announce-during-get":
+                    after_n = answered[0] + rng.randint(1, max(1, span - 1))
+
+                    def mid() -> None:
+                        if answered[0] == after_n and not changed[0]:
+                            changed[0] = True
+                            e = sim.new()
+                            history.append(f"(announcement of {e['ts']} during the read)")
+                            air.inject(f" I --- {CTL} --:------ {CTL} 0418 022 {entry_payload(e, 0)}", delay=0.01, faultable=False)
+
+                    on_answer.append(mid)
+                history.append(f"{kind} limit={limit} muted={sorted(mute)} depth={len(sim.entries)}")
+                try:
+                    result = await asyncio.wait_for(tcs.get_faultlog(start=0, limit=limit), timeout=400)
+                except Exception as err:  # noqa: BLE001
+                    ctx.violate(f"C19|get_faultlog|raises|{type(err).__name__}|{innermost_lib_frame(err)}", "get_faultlog() raised", {"history": history[-12:], "error": repr(err)[:200], "episode": ep})
+                    result = None
+                mute.clear()
+                on_answer.clear()
+                await vloop.drain(loop)
+                ctx.count("sequence.gets")
+                view = well_formed(tcs, f"after {kind}")
+                if kind == "get" and view is not None:
+                    ctx.count("sequence.clean_gets")
+                    if result is None:
+                        ctx.violate("C19|get_faultlog|failed-against-responsive-controller", "get_faultlog() returned nothing although every request was answered", {"history": history[-12:], "episode": ep})
+                    m = min(n, len(sim.entries), 64)
+                    have = {i: t for i, t in view.items() if i < m}
+                    want = {i: sim.entries[i]["ts"] for i in range(m)}
+                    if have != want:
+                        ctx.violate(
+                            "C19|get_faultlog|view-differs-from-controller-log",
+                            "after get_faultlog() read the log from the top (nothing changing meanwhile) the view differs from the controller's log over the range read",
+                            {"history": history[-12:], "view": view, "controller": want, "episode": ep},
+                        )
+                elif kind == "get-fail":
+                    ctx.count("sequence.failed_gets")
+            else:
+                before = well_formed(tcs, "before new entry")
+                e = sim.new()
+                if kind == "new+announce":
+                    history.append(f"announce {e['ts']}")
+                    await announce(tcs, e)
+                    ctx.count("sequence.announcements")
+                    after = well_formed(tcs, "after announcement")
+                    if before is not None and after is not None:
+                        b = list(before.values())
+                        if all(x > y for x, y in zip(b, b[1:])) and all(x < e["ts"] for x in b):
+                            want = {0: e["ts"], **{i + 1: t for i, t in before.items() if i + 1 <= 0x3E}}
+                            if after != want:
+                                ctx.violate(
+                                    pushdown_key(before, after, e["ts"]),
+                                    "an unsolicited announcement of a new entry did not push the known entries down by one",
+                                    {"history": history[-12:], "before": before, "after": after, "expected": want, "episode": ep},
+                                )
+                else:
+                    history.append(f"new (announcement lost) {e['ts']}")
+        ctx.ev()
+        ctx.count("sequence.episodes")
+        ctx.seen("seq|" + ",".join(kinds)[:40])
+        for u in loop.unhandled:
+            ctx.info.setdefault("loop_unhandled", []).append(f"{u['type']}@{u['where']}")
+        await harness.stop_gateway(gwy)
+    air.close()
+
+
 def run(ctx) -> None:
     # harness self-check: the library must read our packed timestamps as intended
     from ramses_tx.helpers import hex_to_dts
@@ -329,3 +484,34 @@ def run(ctx) -> None:
             vloop.run(real_get_faultlog, ctx, trial)
         except vloop.Starved as err:
             ctx.inconclusive_because(f"get_faultlog scenario starved: {err}")
+    for k in range(6 if ctx.quick else 120):
+        harness.reset_transport_globals()
+        try:
+            vloop.run(real_sequence, ctx, ctx.shard + k * ctx.nshards)
+        except vloop.Starved as err:
+            ctx.inconclusive_because(f"get_faultlog sequence starved: {err}")
+
+
+def replay(data: dict[str, Any]) -> int:
+    """Re-run the get_faultlog() sequence episodes the witnesses came from (other witnesses carry their history)."""
+    from .common import Ctx
+
+    bad, seen = 0, set()
+    for w in data.get("witnesses", []):
+        ep = w.get("episode") if isinstance(w, dict) else None
+        if not ep or ep.get("part") != "sequence":
+            print("witness is its own input (history of packets fed):", str(w)[:600])
+            continue
+        if (ep["seed"], ep["trial"]) in seen:
+            continue
+        seen.add((ep["seed"], ep["trial"]))
+        ctx = Ctx(PID, "thorough", ep["seed"], 0, 1)
+        harness.reset_transport_globals()
+        vloop.run(real_sequence, ctx, ep["trial"])
+        for k, v in ctx.violations.items():
+            print("REPRODUCED", k, "-", v["what"])
+            print("   ", str(v["witnesses"][0])[:1000])
+            bad += 1
+        if not ctx.violations:
+            print(f"episode {ep}: not reproduced")
+    return bad
